@@ -393,31 +393,31 @@ Theorem apply_not_none : forall a, py_apply_logical_not a None = None.
 Proof. exact apply_not_none_p. Qed.
 Print Assumptions apply_not_none.
 
-(* apply_logical_not IGNORES the replacement: it returns NOT of the original leaf ... *)
-Theorem apply_not_actual : forall v a r r',
-  py_apply_logical_not a (Some r) = Some r' -> eval3 v r' = tri_not (v a).
-Proof. exact apply_not_actual_p. Qed.
-Print Assumptions apply_not_actual.
+(* apply_logical_not negates the REPLACEMENT (repaired by /repo 33efa74), at full strength *)
+Theorem apply_not_sound : forall v a r r',
+  py_apply_logical_not a (Some r) = Some r' -> eval3 v r' = tri_not (eval3 v r).
+Proof. exact apply_not_sound_p. Qed.
+Print Assumptions apply_not_sound.
 
-(* ... so the specification holds only for a replacement equivalent to the original leaf ... *)
-Theorem apply_not_sound_partial : forall v a r r', py_apply_logical_not a (Some r) = Some r' ->
-  eval3 v r = v a -> eval3 v r' = tri_not (eval3 v r).
-Proof. exact apply_not_sound_partial_p. Qed.
-Print Assumptions apply_not_sound_partial.
+(* the body before 33efa74 (NOT of the ORIGINAL leaf, `apply_logical_not_unfixed`) did not: the witness of the repaired
+   defect F-C15-visitor-not-drops-replacement, kept on the model variant; the regenerated body differs from it there *)
+Theorem apply_not_refuted_without_fix : exists v a r r',
+  apply_logical_not_unfixed a (Some r) = Some r' /\ eval3 v r' <> tri_not (eval3 v r).
+Proof. exact apply_not_refuted_without_fix_p. Qed.
+Print Assumptions apply_not_refuted_without_fix.
 
-(* ... and fails in general (finding C15-F1; replayed on the implementation by the check) *)
-Theorem apply_not_refuted : exists v a r r',
-  py_apply_logical_not a (Some r) = Some r' /\ eval3 v r' <> tri_not (eval3 v r).
-Proof. exact apply_not_refuted_p. Qed.
-Print Assumptions apply_not_refuted.
+Theorem apply_not_fix_differs : exists a r,
+  py_apply_logical_not a (Some r) <> apply_logical_not_unfixed a (Some r).
+Proof. exact apply_not_fix_differs_p. Qed.
+Print Assumptions apply_not_fix_differs.
 
 (* the whole visit (the regenerated helpers composed as PredicateVisitor._visit_logical_and/_or/_not composes them,
-   Model/PredVisitCheck.v): when no replaced atom occurs under a NOT, the rebuilt predicate (the original when the
-   helpers return None) has exactly the value of the original under the substituted assignment *)
-Theorem visit_sound_no_negated_replacement : forall v s p, neg_free s p ->
+   Model/PredVisitCheck.v): for EVERY substitution -- replaced atoms under a NOT included -- the rebuilt predicate (the
+   original when the helpers return None) has exactly the value of the original under the substituted assignment *)
+Theorem visit_sound : forall v s p,
   eval3 v (match visit_pred s p with Some r => r | None => p end) = eval3 (subst_val v s) p.
 Proof. exact visit_pred_sound_p. Qed.
-Print Assumptions visit_sound_no_negated_replacement.
+Print Assumptions visit_sound.
 
 (* ================================= non-vacuity ====================================================== *)
 (* flags_ok is satisfiable with a TRUE identity flag (p.logical_and(p)), and then _impl_and really takes
@@ -475,11 +475,7 @@ Example size_bound_attained :
   ideal_groups true (wrap_of t) = 4 /\ option_map (@length _) (py_from_tree 10 true t) = Some 4.
 Proof. vm_compute. split; reflexivity. Qed.
 
-(* neg_free is satisfiable with a real replacement:  (x0 OR NOT x1) AND x2  with x0 := x3 *)
+(* a replacement under a NOT is substituted:  (NOT x0 OR x1)  with x0 := x2 AND x3  ->  NOT x2 OR NOT x3 OR x1 *)
 Example visit_example :
-  neg_free [(0%N, [[Pos 3%N]])] [[Pos 0%N; Neg 1%N]; [Pos 2%N]]
-  /\ visit_pred [(0%N, [[Pos 3%N]])] [[Pos 0%N; Neg 1%N]; [Pos 2%N]] = Some [[Pos 3%N; Neg 1%N]; [Pos 2%N]].
-Proof.
-  split; [|vm_compute; reflexivity].
-  intros g l [<-|[<-|[]]] Hl; cbn in Hl; repeat destruct Hl as [<-|Hl]; try contradiction; cbn; auto.
-Qed.
+  visit_pred [(0%N, [[Pos 2%N]; [Pos 3%N]])] [[Neg 0%N; Pos 1%N]] = Some [[Neg 2%N; Neg 3%N; Pos 1%N]].
+Proof. vm_compute. reflexivity. Qed.
